@@ -253,6 +253,25 @@ def validation_rules(ctx, cg):
         for sb, cond, tedges, fedges in bool_switches(P, b, lambda d: d[0] == "call" and str(d[1]).endswith("::is_empty")):
             if edge_dominated(cfg, fedges, bb):
                 guarded = True
+        # ... or the same test spelt with the length: `len == 0` / `len < 1` (not empty on the false edge), `len != 0` / `len > 0` /
+        # `len >= 1` (on the true edge), with the operands either way round
+        def lencmp(d):
+            if d[0] != "bin" or d[1] not in ("Eq", "Ne", "Lt", "Le", "Gt", "Ge"):
+                return False
+            x, y = norm(d[2]), norm(d[3])
+            return sum(1 for z in (x, y) if z[0] == "call" and str(z[1]).endswith("::len") or z[0] == "len") == 1 and \
+                sum(1 for z in (x, y) if const_value(z) is not None) == 1
+        for sb, d, tedges, fedges in bool_switches(P, b, lencmp):
+            x, y = norm(d[2]), norm(d[3])
+            op = d[1]
+            if const_value(x) is not None:          # k op len  ->  len op' k
+                x, y = y, x
+                op = {"Lt": "Gt", "Gt": "Lt", "Le": "Ge", "Ge": "Le"}.get(op, op)
+            k = const_value(y)
+            nonempty_on_true = (op, k) in (("Ne", 0), ("Gt", 0), ("Ge", 1))
+            nonempty_on_false = (op, k) in (("Eq", 0), ("Lt", 1), ("Le", 0))
+            if (nonempty_on_true and edge_dominated(cfg, tedges, bb)) or (nonempty_on_false and edge_dominated(cfg, fedges, bb)):
+                guarded = True
         ctx.check(guarded, "V3", "forward-route-has-a-server", ctx.where(b, s["sp"]),
                   "the router uses the first server of a forward route for every matching query: the route must be built only on the "
                   "edge where the server list is not empty")
